@@ -3,7 +3,7 @@ from typing import Set, List, Dict
 
 from .conditional_effect import ConditionalEffect, UniversalEffect
 from .numerical_expression import NumericalExpressionTree
-from .pddl_precondition import CompoundPrecondition
+from .pddl_precondition import CompoundPrecondition, scope_renaming
 from .pddl_predicate import SignatureType, Predicate
 
 
@@ -83,19 +83,29 @@ class Action:
         self.signature.update(renamed_signature)
 
         self.preconditions.change_signature(old_to_new_parameter_names)
-        effect_groups = [self, *self.conditional_effects]
+        effect_groups = [
+            (effect_group, old_to_new_parameter_names)
+            for effect_group in [self, *self.conditional_effects]
+        ]
         for universal_effect in self.universal_effects:
-            effect_groups.extend(universal_effect.conditional_effects)
+            # inside a quantified effect the renaming respects the scope of the quantified variable.
+            scoped_renaming, universal_effect.quantified_parameter = scope_renaming(
+                universal_effect.quantified_parameter, old_to_new_parameter_names
+            )
+            effect_groups.extend(
+                (conditional_effect, scoped_renaming)
+                for conditional_effect in universal_effect.conditional_effects
+            )
 
-        for effect_group in effect_groups:
+        for effect_group, renaming in effect_groups:
             if effect_group is not self:
-                effect_group.antecedents.change_signature(old_to_new_parameter_names)
+                effect_group.antecedents.change_signature(renaming)
 
             for effect in effect_group.discrete_effects:
-                effect.change_signature(old_to_new_parameter_names)
+                effect.change_signature(renaming)
 
             for effect in effect_group.numeric_effects:
-                effect.change_signature(old_to_new_parameter_names)
+                effect.change_signature(renaming)
 
             # the literals are hashed by their text, which has just changed.
             effect_group.discrete_effects = set(effect_group.discrete_effects)
